@@ -79,6 +79,9 @@ def module_src(m, other, docs):
     !! a private one
   end subroutine hidden_sub
 """ if m == "ma" else ""
+    # a binding implemented by a private procedure (its page is not written); the binding's own comment may mention it
+    paint = ("    procedure, nopass :: paint => hidden_sub\n" + "".join(f"      !! {l}\n" for l in docs.get("ma/shape_t/paint", ["paints"]))) \
+        if m == "ma" else ""
     return f"""module {m}
 {d(m)}  implicit none
   integer :: counter
@@ -87,7 +90,7 @@ def module_src(m, other, docs):
 {d(m + '/shape_t/area')}  contains
     procedure, nopass :: draw => helper
       !! draws
-  end type shape_t
+{paint}  end type shape_t
 {ctor_iface}{extra_a}contains
   subroutine helper()
 {d(m + '/helper')}    type local_t
@@ -132,7 +135,7 @@ ENTITIES = {
     "ma/gen_a": "generic", "mb/shape_t@ctor": "generic", "mb/make_shape": "fun", "main_prog": "program", "ext_sub": "sub", "bdat": "block", "nl_cfg": "namelist",
     "ma.f90": "file", "mb.f90": "file", "main.f90": "file", "build.sh": "file",
 }
-CONTEXTS = ["ma", "mb", "ma/counter", "ma/shape_t", "ma/shape_t/area", "ma/helper", "mb/helper", "mb/shape_t",
+CONTEXTS = ["ma", "mb", "ma/counter", "ma/shape_t", "ma/shape_t/area", "ma/shape_t/paint", "ma/helper", "mb/helper", "mb/shape_t",
             "main_prog", "PROJECT", "PAGE0", "PAGE1", "PAGE2"]
 
 
@@ -143,6 +146,9 @@ def module_of(ctx):
 def gen_reference(ch, ctx):
     """-> (text of the reference, expected targets (list of entity keys; [] = plain text), flags)"""
     mod = module_of(ctx)
+    if ctx.endswith("/paint") and ch.bool(1, 2):
+        # the private procedure behind the binding: found through the binding, but it has no page
+        return "[[hidden_sub]]", [], {"hidden-implementation"}
     if ctx.endswith("/helper") and ch.bool(1, 4):
         # a type declared inside the procedure: it has no page and no anchor, the reference stays plain text
         return "[[local_t]]", [], {"local-type"}
